@@ -80,13 +80,6 @@ func init() {
 	}
 }
 
-type failingCreds struct{}
-
-func (failingCreds) GetRequestMetadata(ctx context.Context, uri ...string) (map[string]string, error) {
-	return nil, fmt.Errorf("credentials unavailable")
-}
-func (failingCreds) RequireTransportSecurity() bool { return false }
-
 func famIDStorm(w *World, c *Case, rng *rand.Rand) {
 	if err := w.Open(nil); err != nil {
 		w.Violate("C11", "open-failed", "open: %v", err)
@@ -110,6 +103,11 @@ func famIDStorm(w *World, c *Case, rng *rand.Rand) {
 	o := ScriptOpts{FlowControl: w.Cfg.RevisionOne(), MaxMsgs: 2, MaxSize: 20000, Pacing: "eager"}
 	for i := 0; i < g*per; i++ {
 		s := GenRPC(rng, fmt.Sprintf("s%d", i), o)
+		if rng.Intn(7) == 0 {
+			// fails at its start, after a stream id was taken for it: the ids on the wire skip one
+			s.FailCreds = []string{"error", "tls"}[rng.Intn(2)]
+			w.Stat("idstorm_failing_credentials", 1)
+		}
 		switch rng.Intn(10) {
 		case 0:
 			s.Timeout = time.Nanosecond // context already expired at start: consumes no id or fails fast
